@@ -31,8 +31,8 @@ from ..canon import fingerprint
 from ..explorer import Step
 
 PROPERTY = "C01"
-ALPHABET = "profiles P1..P5 (see module docstring and PROFILES); deliveries: next frame, first 1 / 9 bytes of next frame, flush"
-QUICK_DEPTH = {"P4": 4, "P5": 4, "P1": 5, "P2": 5, "P3": 6, "P6": 6, "P7": 6, "P8": 6, "P9": 6}
+ALPHABET = "profiles P1..P10 (see module docstring and PROFILES); deliveries: next frame, first 1 / 9 bytes of next frame, flush"
+QUICK_DEPTH = {"P4": 4, "P5": 4, "P1": 5, "P2": 5, "P3": 6, "P6": 6, "P7": 6, "P8": 6, "P9": 6, "P10": 6}
 BOUNDS = {"quick": "profiles to depth %s, <=1 deviation (a raising call, or one window of non-lock-step delivery), two start states" % (sorted(QUICK_DEPTH.items()),), "thorough": "depth 7, <=2 deviations (or time budget, reported)"}
 C, S = P.C, P.S
 REQ = H.REQ_POST + [(b"X-Mixed", b" padded "), (b"accept", b"*/*")]
@@ -42,6 +42,7 @@ TRL = [(b"x-checksum", b"abc")]
 HEAD = [(b":method", b"HEAD"), (b":scheme", b"https"), (b":path", b"/h"), (b":authority", b"example.com")]
 RESPCL = H.RESP + [(b"content-length", b"5"), (b"x-a", b"1")]
 RESP304 = [(b":status", b"304"), (b"etag", b"xyz")]
+REQCL = H.REQ_POST + [(b"content-length", b"5"), (b"accept", b"*/*")]
 REQBIG = H.REQ_POST + [(b"x-big", b"B" * 20000), (b"accept", b"*/*")]
 N = P.norm
 
@@ -123,6 +124,12 @@ def calls():
     add("c:set-mfs", C, "update_settings", ({5: 32768},), {}, [("settings", ((5, 32768),))])
     add("c:set-mfs-16384", C, "update_settings", ({5: 16384},), {}, [("settings", ((5, 16384),))])
     add("s:data1-20000", S, "send_data", (1, b"q" * 20000), {}, [("data", 1, b"q" * 20000, False)])
+    # P10: messages that announce their length (content-length: 5) and carry exactly that much, padded or not
+    add("c:req1cl", C, "send_headers", (1, REQCL), {}, [hdr(1, "request", REQCL, False)])
+    for x, p in ((C, "c"), (S, "s")):
+        add(p + ":hello1", x, "send_data", (1, b"hello"), {}, [("data", 1, b"hello", False)])
+        add(p + ":hello1pad", x, "send_data", (1, b"hello"), {"pad_length": 0}, [("data", 1, b"hello", False)])
+        add(p + ":hello1pades", x, "send_data", (1, b"hello"), {"pad_length": 9, "end_stream": True}, [("data", 1, b"hello", True)])
     add("c:prio3-w1", C, "prioritize", (3,), {"weight": 1}, [("priority", 3, 1, 0, False)])
     add("c:req7prio-w1", C, "send_headers", (7, REQ), {"priority_weight": 1, "priority_exclusive": True, "end_stream": True},
         [hdr(7, "request", REQ, True), ("priority", 7, 1, 0, True)])
@@ -144,9 +151,18 @@ PROFILES = {
     "P8": ["c:reqbig1", "c:req1", "s:resp1", "s:fill1", "c:ack1-2000", "c:ack1-40000", "s:data1-2000", "s:data1", "c:data1",
            "s:data1pad", "c:incr"],
     "P9": ["c:req1", "s:resp1", "s:set-mfs", "s:set-mfs-16384", "c:data1-20000", "c:set-mfs", "c:set-mfs-16384", "s:data1-20000"],
+    # every body-carrying call below sends the announced five bytes; BODY_GUARD lets each side send them once and end
+    # the message only afterwards, so that every program is valid traffic
+    "P10": ["c:req1cl", "c:hello1", "c:hello1pad", "c:hello1pades", "c:end1", "c:trailers1", "s:resp1cl", "s:hello1", "s:hello1pad",
+            "s:hello1pades", "s:end1", "s:trailers1", "s:info1"],
     "P7": ["c:req1", "s:push1", "s:resp2", "s:data2", "s:data2es", "c:set-iws-down", "c:set-iws-6", "c:set-iws-up", "c:incr2", "s:set-mfs",
            "s:resp1es"],
 }
+
+
+# P10 only: label -> (body must already have been sent, this call sends it)
+BODY_GUARD = {"hello1": (False, True), "hello1pad": (False, True), "hello1pades": (False, True), "end1": (True, False),
+              "trailers1": (True, False)}
 
 
 class Spec:
@@ -166,12 +182,13 @@ class Spec:
             st = P.PairState(handshake=hs)
             st.budget = self.dev
             st.window = not hs
+            st.body = [False, False]
             out.append((nm, st))
         return out
 
     def fingerprint(self, st):
         return fingerprint(st.conn[0], st.conn[1], bytes(st.pipe[0]), bytes(st.pipe[1]), st.ledger, [sorted(g) for g in st.gone],
-                           st.closed, st.broken, st.budget, getattr(st, 'window', False), st.raised, st.sset, st.acks, st.overlap, [sorted((k, sorted(v)) for k, v in e.items()) for e in st.es])
+                           st.closed, st.broken, st.budget, getattr(st, 'window', False), st.raised, st.sset, st.acks, st.overlap, getattr(st, 'body', None), [sorted((k, sorted(v)) for k, v in e.items()) for e in st.es])
 
     def actions(self, st):
         if st.broken:
@@ -182,6 +199,8 @@ class Spec:
         for lab in self.menu:
             x = self.T[lab][0]
             if st.closed[x]:
+                continue
+            if self.profile == "P10" and lab[2:] in BODY_GUARD and BODY_GUARD[lab[2:]][0] != st.body[x]:
                 continue
             acts.append(lab)                    # lock-step outside a window; left in flight inside one
             if not window and st.budget > 0:
@@ -311,6 +330,8 @@ class Spec:
                 # a pushed stream starts half-closed: the promised request counts as an ended message
                 st.note_es(P.S, args[1], "recv")
                 st.note_es(P.C, args[1], "sent")
+            if self.profile == "P10" and base[2:] in BODY_GUARD and BODY_GUARD[base[2:]][1]:
+                st.body[x] = True
             st.ledger[1 - x].extend(its)
             out = "call-ok"
         if not hold:
@@ -328,5 +349,9 @@ def make_spec(key):
 
 
 def run(ctx):
+    import os
+    only = os.environ.get("H2MC_C01_PROFILES")      # developer knob: explore some profiles only (never set by a registered command)
     for prof in sorted(PROFILES):
+        if only and prof not in only.split(","):
+            continue
         ctx.explore(("c01", prof, ctx.tier), time_budget=None if ctx.tier == "quick" else 300)
